@@ -8,6 +8,7 @@ pub mod c03;
 pub mod c05;
 pub mod c19;
 pub mod c20;
+pub mod c20b;
 pub mod mfamily;
 pub mod c04;
 pub mod c06;
